@@ -8,4 +8,9 @@ except ImportError:
     subprocess.check_call([sys.executable, "-m", "pip", "install", "--no-index",
                            "--find-links", "/opt/veriftools/wheels", "hypothesis"])
 import os
+HERE = os.path.dirname(os.path.dirname(os.path.abspath(__file__)))
+if not os.path.isdir(os.path.join(HERE, ".deps", "atheris")):
+    # optional engine for the thorough tier of C18; its absence is recorded, never a failure
+    subprocess.call([sys.executable, "-m", "pip", "install", "--no-index", "--find-links", "/opt/veriftools/wheels",
+                     "--target", os.path.join(HERE, ".deps"), "atheris"])
 os.makedirs(os.path.join(os.path.dirname(os.path.dirname(os.path.abspath(__file__))), "evidence"), exist_ok=True)
